@@ -497,7 +497,7 @@ func runProperty(rc *runCtx, spec *property) int {
 				confirmed := false
 				var file, detail string
 				for k, v := range vs {
-					if k >= 3 {
+					if k >= 6 {
 						break
 					}
 					file = writeViolation(rc, h, v, cl, k)
@@ -571,7 +571,12 @@ func writeViolation(rc *runCtx, h *harness, v *interp.Violation, class string, k
 		return '_'
 	}, class)
 	if len(safe) > 60 {
-		safe = safe[:60]
+		// long class names are cut; a checksum of the whole name keeps different classes apart
+		sum := uint32(2166136261)
+		for _, c := range []byte(class) {
+			sum = (sum ^ uint32(c)) * 16777619
+		}
+		safe = fmt.Sprintf("%s_%08x", safe[:60], sum)
 	}
 	file := filepath.Join(dir, fmt.Sprintf("%s-%s-%s-%d.json", strings.ReplaceAll(h.Pkg, "/", "_"), h.Name, safe, k))
 	vf := violationFile{Property: rc.id, Harness: h.Name, Pkg: h.Pkg, Kind: v.Kind, Msg: v.Msg, Class: class,
